@@ -30,6 +30,7 @@ from concurrent.futures import ThreadPoolExecutor
 from harness import gen_tables
 
 ROOT = os.path.dirname(os.path.dirname(os.path.abspath(__file__)))
+REPO = os.environ.get('VERIF_REPO', '/repo')
 COQ = os.path.join(ROOT, 'coq')
 CASES = os.path.join(COQ, 'cases')
 EVID = os.path.join(ROOT, 'evidence')
@@ -246,6 +247,64 @@ def jdump(obj):
 	return json.dumps(obj, sort_keys=True, default=lambda o: o.hex() if isinstance(o, (bytes, bytearray)) else repr(o))
 
 
+COV = None
+
+
+def _cov_start():
+	"""statement coverage of the implementation while the cases run (generator quality, printed into the evidence); never affects the verdict"""
+	if os.environ.get('VERIF_COVERAGE', '1') == '0':
+		return None
+	try:
+		import coverage
+		cov = coverage.Coverage(data_file=None, include=[os.path.join(REPO, 'httoop', '*')], config_file=False)
+		cov.start()
+		return cov
+	except Exception:
+		return None
+
+
+def _cov_stop(cov, pid):
+	if cov is None:
+		return 'not measured'
+	out = {}
+	try:
+		cov.stop()
+		files = []
+		with open(os.path.join(ROOT, 'properties.jsonl')) as fd:
+			for l in fd:
+				d = json.loads(l)
+				if d['id'] == pid:
+					files = d.get('anchors', {}).get('files', [])
+		for f in files:
+			path = os.path.join(REPO, f)
+			if not os.path.exists(path):
+				out[f] = 'missing file'
+				continue
+			try:
+				_, stmts, _, missing, _ = cov.analysis2(path)
+				out[f] = {'statements': len(stmts), 'executed': len(stmts) - len(missing), 'not_executed_lines': _ranges(missing)}
+			except Exception as exc:
+				out[f] = 'not measured (%s)' % (type(exc).__name__,)
+	except Exception as exc:
+		return 'not measured (%s)' % (type(exc).__name__,)
+	return out
+
+
+def _ranges(nums):
+	out, start, prev = [], None, None
+	for n in nums:
+		if start is None:
+			start = prev = n
+		elif n == prev + 1:
+			prev = n
+		else:
+			out.append('%d' % start if start == prev else '%d-%d' % (start, prev))
+			start = prev = n
+	if start is not None:
+		out.append('%d' % start if start == prev else '%d-%d' % (start, prev))
+	return ' '.join(out)
+
+
 def run(spec, tier, seed, replay=None):
 	t0 = time.time()
 	pid = spec.ID
@@ -298,6 +357,7 @@ def run(spec, tier, seed, replay=None):
 		cases.extend(spec.gen_cases(rng, tier))
 	obs = []
 	kinds = {}
+	cov = COV
 	for c in cases:
 		try:
 			o = spec.observe(c)
@@ -305,6 +365,8 @@ def run(spec, tier, seed, replay=None):
 			o = {'harness_exception': '%s: %s' % (type(exc).__name__, exc)}
 		obs.append(o)
 		kinds[c.get('k')] = kinds.get(c.get('k'), 0) + 1
+
+	impl_cov = _cov_stop(cov, pid)
 
 	# 3. T2 correspondence inside Coq
 	items = []
@@ -407,6 +469,7 @@ def run(spec, tier, seed, replay=None):
 			'distinct_nontrivial': len(nontrivial),
 			'rule': getattr(spec, 'RULE', ''),
 			'input_distribution': kinds,
+			'impl_statement_coverage_of_anchor_files': impl_cov,
 			'samples': samples,
 			'known_findings_reproduced': sorted(known_hit),
 			'fixed_findings_checked': [f['id'] for f in fixed],
